@@ -461,24 +461,59 @@ def rule_dialect_triple(rep: Report, rid="C05.triple") -> None:
 
 
 # ---- decision-tree comparison of cond terms ------------------------------------------------------
+def _test_atoms(c, acc):
+    """Atomic tests of a condition (cond / not / and-or structure is decomposed)."""
+    if not isinstance(c, tuple) or not c or is_const(c):
+        return
+    if c[0] == "not":
+        _test_atoms(c[1], acc)
+    elif c[0] == "bool":
+        for x in c[2]:
+            _test_atoms(x, acc)
+    elif c[0] == "cond":
+        _test_atoms(c[1], acc)
+        _test_atoms(c[2], acc)
+        _test_atoms(c[3], acc)
+    elif c not in acc:
+        acc.append(c)
+
+
 def cond_atoms(t, acc=None):
     if acc is None:
         acc = []
     if isinstance(t, tuple) and t:
         if t[0] == "cond":
-            if t[1] not in acc:
-                acc.append(t[1])
+            _test_atoms(t[1], acc)
         for x in t:
             if isinstance(x, tuple):
                 cond_atoms(x, acc)
     return acc
 
 
+def eval_test(c, assign):
+    if is_const(c):
+        return bool(c[1])
+    if c in assign:
+        return assign[c]
+    if c[0] == "not":
+        return not eval_test(c[1], assign)
+    if c[0] == "bool":
+        vals = [eval_test(x, assign) for x in c[2]]
+        return any(vals) if c[1] == "or" else all(vals)
+    if c[0] == "cond":
+        return eval_test(c[2], assign) if eval_test(c[1], assign) else eval_test(c[3], assign)
+    raise KeyError(c)
+
+
 def resolve_conds(t, assign: dict):
     if not isinstance(t, tuple) or not t:
         return t
-    if t[0] == "cond" and t[1] in assign:
-        return resolve_conds(t[2] if assign[t[1]] else t[3], assign)
+    if t[0] == "cond":
+        try:
+            v = eval_test(t[1], assign)
+        except KeyError:
+            return tuple(resolve_conds(x, assign) if isinstance(x, tuple) else x for x in t)
+        return resolve_conds(t[2] if v else t[3], assign)
     return tuple(resolve_conds(x, assign) if isinstance(x, tuple) else x for x in t)
 
 
@@ -613,6 +648,14 @@ def rule_docstring_own(rep: Report, rid="C13.own") -> None:
     f = facts()
     base = f.cls(MQ)
     allowed = {N.DS_MATCH, "match_DocStringSeparator", "reset", "__init__"}
+    # helpers the delimiter matcher delegates to (resolved calls of its normal form)
+    for cq in (MQ, "gherkin.token_matcher_markdown.GherkinInMarkdownTokenMatcher"):
+        try:
+            mm = mnf(cq).methods["DocStringSeparator"]
+            allowed |= {callee.rsplit(".", 1)[1] for caller, callee, line in mm.I.call_log}
+        except (AnalysisError, KeyError):
+            pass
+    allowed -= {N.SINK, N.CHANGE_DIALECT}
     n = 0
     for m in f.modules.values():
         if m.name == "gherkin.inout":
@@ -652,28 +695,29 @@ def rule_other_text(rep: Report, rid="C13.text", cls_q=MQ, openers=('"""', "```"
         t = a.get("text")
         atoms = cond_atoms(t) if t else []
         eq_atoms = {o: ("cmp", "Eq", active, const(o)) for o in openers}
-        allowed = set(eq_atoms.values()) | {C}
-        rep.ob(rid, "the text depends only on the active delimiter and on 'indent to remove' vs the line's indent", set(atoms) <= allowed and C in atoms, **kw,
+        lt, gt = ("cmp", "Lt", ind, const(0)), ("cmp", "Gt", ind, ("attr", line, "indent"))
+        allowed = set(eq_atoms.values()) | {lt, gt}
+        rep.ob(rid, "the text depends only on the active delimiter and on 'indent to remove' vs the line's indent", set(atoms) <= allowed and {lt, gt} <= set(atoms), **kw,
                expected=[fmt(x, I) for x in sorted(allowed, key=str)], found=[fmt(x, I) for x in atoms])
         if not (set(atoms) <= allowed):
             continue
-        import itertools
         bad = []
         for which in [None] + list(openers):
-            for cval in (True, False):
-                assign = {C: cval}
-                for o, at in eq_atoms.items():
-                    assign[at] = (o == which)
-                got = resolve_conds(t, assign)
-                base = trimmed if cval else ("slice", raw, ind, NONE, NONE)
-                want = base
-                if which is not None:
-                    esc = "".join("\\" + ch for ch in which)
-                    want = ("call", ".replace", (base, const(esc), const(which)), ())
-                if got != want:
-                    bad.append({"active": which, "less_indented_or_negative": cval, "expected": fmt(want, I), "found": fmt(got, I)})
+            for ltv in (True, False):
+                for gtv in (True, False):
+                    assign = {lt: ltv, gt: gtv}
+                    for o, at in eq_atoms.items():
+                        assign[at] = (o == which)
+                    got = resolve_conds(t, assign)
+                    base = trimmed if (ltv or gtv) else ("slice", raw, ind, NONE, NONE)
+                    want = base
+                    if which is not None:
+                        esc = "".join("\\" + ch for ch in which)
+                        want = ("call", ".replace", (base, const(esc), const(which)), ())
+                    if got != want:
+                        bad.append({"active": which, "indent_to_remove<0": ltv, "indent_to_remove>line indent": gtv, "expected": fmt(want, I), "found": fmt(got, I)})
         rep.ob(rid, "content line = line[indent_to_remove:] (fully left-trimmed when indented less), escaped active delimiter restored, other delimiter untouched",
-               not bad, **kw, expected="per-case table (active delimiter x indentation relation)", found=bad or "all 6 cases as expected")
+               not bad, **kw, expected="per-case table (active delimiter x indentation relation)", found=bad[:3] or "all cases as expected")
         rep.ob(rid, "content lines are reported at column 1 (indent 0), kind Other", a.get("indent") == const(0) and a.get("matched_type") == const("Other"), **kw,
                expected="indent=0", found=(fmt(a.get("indent"), I) if a.get("indent") else None))
 
